@@ -214,8 +214,8 @@ func valueClass(v zygo.Sexp, err error) string {
 	// contains itself) then dies at once with Go's unrecoverable "stack overflow" instead of
 	// after the watchdog has already classified the op as non-terminating.
 	old := debug.SetMaxStack(4 << 20)
+	defer debug.SetMaxStack(old) // also when the printer panics
 	_ = v.SexpString(nil)
-	debug.SetMaxStack(old)
 	return "ok"
 }
 
@@ -440,14 +440,14 @@ func crashEnum(toks []string) string {
 		counts["R:"+classOnly(rec.R)]++
 		counts["P:"+strings.SplitN(rec.P, "/", 2)[0]]++
 		if rec.bad() {
-			// does it fail on a fresh interpreter too? then the string alone is the input
 			discard()
-			alone := crashAll('b', text, true, func() *crashEnv { return newCrashEnv('b') }, func() {})
-			tag := "alone"
-			if !alone.bad() {
-				tag = fmt.Sprintf("history-from-%d", from)
-			}
 			if len(failing) < 8 {
+				// does it fail on a fresh interpreter too? then the string alone is the input
+				alone := crashAll('b', text, true, func() *crashEnv { return newCrashEnv('b') }, func() {})
+				tag := "alone"
+				if !alone.bad() {
+					tag = fmt.Sprintf("history-from-%d", from)
+				}
 				failing = append(failing, stringToCodes(text)+"="+tag+"="+firstBad(rec))
 			}
 			counts["failing"]++
